@@ -30,6 +30,9 @@ def lookups(b: core.Built, st: dict, maxd: int) -> dict:
             "first": 0 if first is None else ident.get(id(first), -2),
             "has": bool(obj in tree),
             "lim": lim,
+            # the same lookup through the Node API of the (public) system root
+            "root_all": ids(tree.system_root.find_all(obj)),
+            "root_did": ids(tree.system_root.find_all(data_id=fl.real_did(fl.model_default_did(d)))),
         })
     clones = []
     for i in range(1, st["n"] + 1):
